@@ -8,7 +8,7 @@ From L2 Require Import Model Base Own.
 Definition chain (fr : frame) : bool := match fr with FWake _ | FUnpark _ | FRQ1 | FRQ2 => true | _ => false end.
 Fixpoint below (st : list frame) : list frame :=      (* what lies below the first non-chain frame *)
   match st with [] => [] | fr :: r => if chain fr then below r else r end.
-Definition toponly (fr : frame) : bool := match fr with FD2 | FWakeWith _ _ => true | _ => false end.
+Definition toponly (fr : frame) : bool := match fr with FD1 _ | FD2 | FWakeWith _ _ => true | _ => false end.
 (* no marker and no waker-call frame below the first frame that is not a waker call; FD2 / FWakeWith only on top *)
 Definition mshape (st : list frame) : Prop :=
   cntf marker (below st) = 0 /\ cntf chain (below st) = 0 /\ cntf toponly (tail st) = 0.
